@@ -13,7 +13,7 @@ import (
 )
 
 // ecdhCase checks ECDH(a, [b]G) = x([a][b]G) = ECDH(b, [a]G) against the reference.
-func ecdhCase(x *mon.Ctx, c *mon.Case, a, b *big.Int, wire bool, viaSM2 bool) {
+func ecdhCase(x *mon.Ctx, c *mon.Case, a, b *big.Int, wire bool, viaSM2 bool, scrib int) {
 	cv := ecdh.P256()
 	PA, PB := ec.BaseMul(a), ec.BaseMul(b)
 	want, err := sm2kx.ECDH(a, PB)
@@ -36,10 +36,12 @@ func ecdhCase(x *mon.Ctx, c *mon.Case, a, b *big.Int, wire bool, viaSM2 bool) {
 			kb, err = sb.ECDH()
 			return
 		}
-		if ka, err = cv.NewPrivateKey(ec.Bytes32(a)); err != nil {
+		ba, bb := ec.Bytes32(a), ec.Bytes32(b)
+		defer scribble(c, scrib, ba, bb) // the caller wipes its buffers once the constructors have returned
+		if ka, err = cv.NewPrivateKey(ba); err != nil {
 			return
 		}
-		kb, err = cv.NewPrivateKey(ec.Bytes32(b))
+		kb, err = cv.NewPrivateKey(bb)
 	}) {
 		return
 	}
@@ -57,8 +59,10 @@ func ecdhCase(x *mon.Ctx, c *mon.Case, a, b *big.Int, wire bool, viaSM2 bool) {
 	if wire {
 		var e1, e2 error
 		if !c.Call("ecdh.NewPublicKey", func() {
-			pa, e1 = cv.NewPublicKey(PA.Marshal())
-			pb, e2 = cv.NewPublicKey(PB.Marshal())
+			wa, wb := PA.Marshal(), PB.Marshal()
+			pa, e1 = cv.NewPublicKey(wa)
+			pb, e2 = cv.NewPublicKey(wb)
+			scribble(c, scrib, wa, wb)
 		}) {
 			return
 		}
@@ -83,6 +87,22 @@ func ecdhCase(x *mon.Ctx, c *mon.Case, a, b *big.Int, wire bool, viaSM2 bool) {
 	c.Eq("ECDH(b, [a]G)", s2, want)
 	if !bytes.Equal(s1, s2) {
 		c.Fail("mismatch", "the two ECDH computations differ: %x / %x", s1, s2)
+	}
+	if scrib != 0 {
+		// returned slices belong to the caller: overwriting them must not change the objects
+		o := [][]byte{s1, s2, ka.Bytes(), kb.Bytes(), pa.Bytes(), pb.Bytes()}
+		scribble(c, scrib, o...)
+		var s3 []byte
+		var e3 error
+		if c.Call("ECDH again", func() { s3, e3 = ka.ECDH(pb) }) {
+			if e3 != nil {
+				c.Fail("reject", "second ECDH on the same objects failed after the caller overwrote returned slices: %v", e3)
+			} else {
+				c.Eq("second ECDH(a, [b]G) after the caller overwrote returned slices", s3, want)
+			}
+		}
+		c.Eq("private key bytes a (again)", ka.Bytes(), ec.Bytes32(a))
+		c.Eq("[b]G (again)", pb.Bytes(), PB.Marshal())
 	}
 	c.Event("ecdh_agreements", 1)
 }
@@ -110,7 +130,7 @@ func plainECDH(x *mon.Ctx) {
 				continue
 			}
 			c.Class("structured/%s/wire=%v/sm2=%v", a.name, k%2 == 0, k%3 == 0)
-			ecdhCase(x, c, a.v, b.v, k%2 == 0, k%3 == 0)
+			ecdhCase(x, c, a.v, b.v, k%2 == 0, k%3 == 0, k%4)
 			c.End()
 		}
 	}
@@ -138,7 +158,7 @@ func plainECDH(x *mon.Ctx) {
 		}
 		c.Detail("scalars", []string{a.Text(16), b.Text(16)})
 		c.Class("%s/wire=%v/sm2=%v", kind, i%2 == 0, i%3 == 0)
-		ecdhCase(x, c, a, b, i%2 == 0, i%3 == 0)
+		ecdhCase(x, c, a, b, i%2 == 0, i%3 == 0, i%4)
 		c.End()
 	}
 }
